@@ -44,7 +44,7 @@ func init() {
 			rulePFAlloc(r, []string{enginePkg, metricPkg, dockerlogPkg, logqlPkg, lexerPkg, itersPkg, "internal/logql/logqlengine/jsonexpr", "internal/logql/logqlengine/logqlpattern", "internal/otelstorage"}, 5)
 			ruleErrChainC14(r) // a failure that is swallowed leaves a nil reader behind that the merge dereferences
 			rulePFDeferNil(r, []string{enginePkg, metricPkg, dockerlogPkg, cmdPkg})
-			ruleDistinct(r)               // the stage works on its own, allocated state
+			ruleDistinct(r) // the stage works on its own, allocated state
 		},
 	})
 }
